@@ -386,6 +386,7 @@ func DetectOffset(position uint64, numLeaves uint64) (uint8, uint8, uint64, erro
 	for ; (position<<nr)&maxPosition(uint8(tRows)) >=
 		maxLeafCount(uint8(tRows))&numLeaves; tRows-- {
 
+		verifTick("DetectOffset.tree")
 		if tRows < 0 {
 			return 0, 0, 0, fmt.Errorf("DetectOffest error: "+
 				"position %d doesn't exist in a forest with %d leaves",
@@ -547,6 +548,7 @@ func inForest(pos, numLeaves uint64, forestRows uint8) bool {
 		return false
 	}
 	for pos&marker != 0 {
+		verifTick("inForest.descend")
 		pos = ((pos << 1) & mask) | 1
 	}
 	return pos < numLeaves
